@@ -66,7 +66,7 @@ pub fn inject_error(files: &Files, rng: &mut Rng) -> (&'static str, Files) {
     let paths: Vec<String> = f.keys().cloned().collect();
     let any = rng.pick(&paths).clone();
     let nl = if f[&any].contains("\r\n") { "\r\n" } else { "\n" };
-    let kind = rng.below(9);
+    let kind = rng.below(10);
     let phase = match kind {
         0 => {
             // lexical: a character no token starts with
@@ -78,6 +78,12 @@ pub fn inject_error(files: &Files, rng: &mut Rng) -> (&'static str, Files) {
         1 => {
             let t = f.get_mut(&any).unwrap();
             t.push_str(&format!("{nl}let broken = \"unterminated ;{nl}"));
+            "lexical"
+        }
+        9 => {
+            // a byte order mark: no token starts with U+FEFF, every front end must reject it alike
+            let t = f.get_mut(&any).unwrap();
+            t.insert(0, '\u{feff}');
             "lexical"
         }
         2 => {
